@@ -59,7 +59,7 @@ void tool_build(const Plan &p, Case &c) {
   // bonded: the topology carries a <bonded> section (bonds, and angles for chains of >= 3 beads), which also
   // creates exclusions for the non-bonded search; without mapping the bonded distributions are evaluated too
   bool bonded = (p.variant & V_BONDED) != 0;
-  std::string top = gen_topology_xml(p, two);
+  std::string top = gen_topology_xml(p, two, box);
   if (bonded) {
     auto bname = [&](int b) { return std::string("MOL:") + ((two && (b % 2)) ? "B" : "A") + std::to_string(b + 1); };
     std::ostringstream b;
@@ -75,13 +75,13 @@ void tool_build(const Plan &p, Case &c) {
     top.insert(top.rfind("</topology>"), b.str());
   }
   c.files["topol.xml"] = top;
-  std::string trj = p.fmt == 0 ? "traj.vdump" : "traj.vgro";
+  std::string trj = trj_file(p);
   c.files[trj] = gen_trajectory(p, box, p.nmol * p.chain);
   std::ostringstream opt;
   opt << "<cg>\n";
   if (p.variant & V_GRID_SIMPLE) opt << " <nbsearch>simple</nbsearch>\n";
-  // mean force needs forces in the trajectory: LAMMPS dump only
-  opt << interaction("A-A", "A", "A", max, step, imc, "g1", (p.variant & V_FORCE) && p.fmt == 0);
+  // mean force needs forces in the trajectory: LAMMPS dump and DL_POLY HISTORY
+  opt << interaction("A-A", "A", "A", max, step, imc, "g1", (p.variant & V_FORCE) && (p.fmt == 0 || p.fmt == 4));
   if (two) opt << interaction("A-B", "A", "B", 0.5, 0.1, imc, (p.case_seed & 64) ? "g1" : "g2");
   if (bonded && !map) {
     opt << " <bonded>\n  <name>bond1</name>\n  <min>0.0</min>\n  <max>0.3</max>\n  <step>0.01</step>\n";
